@@ -312,13 +312,14 @@ def read_menu(fmt):
             out.append(writers.gro(np.round(xyz / units.nanometer, 3) * units.nanometer, f"frame {k}", None if t is None else t * units.picosecond,
                                    vel_au=np.full((n, 3), 0.25 * (k + 1)) * units.nanometer / units.picosecond if vel else None, cell_bohr=np.diag([3.0 + k, 4.0, 5.0]) * units.nanometer))
     elif fmt == "extxyz":
-        variants = [dict(), dict(species_as_z=True), dict(extra_cols={"Z": ("I", 1, None)}), dict(masses=True), dict(forces=True, cell=False), dict(extra_cols={"tag": ("S", 1, None), "Z": ("I", 1, None)}, energy=None)]
+        variants = [dict(), dict(species_as_z=True), dict(extra_cols={"Z": ("I", 1, None)}), dict(masses=True), dict(forces=True, cell=False), dict(extra_cols={"tag": ("S", 1, None), "Z": ("I", 1, None)}, energy=None, cell=False),
+                    dict(extra_cols={"tag": ("S", 1, None), "Z": ("I", 1, None)}, energy=None, cell=False, labels="other")]  # same title line as the previous one
         for k, v in enumerate(variants):
-            n = [3, 2, 3, 1, 4, 2][k]
+            n = [3, 2, 3, 1, 4, 2, 3][k]
             z, xyz = geo(n, k)
             cols = None
             if v.get("extra_cols"):
-                cols = {name: (dt, nc, [int(zi) for zi in z] if name == "Z" else [f"lab{i}" for i in range(n)]) for name, (dt, nc, _) in v["extra_cols"].items()}
+                cols = {name: (dt, nc, [int(zi) for zi in z] if name == "Z" else [f"{'lab' if v.get('labels') != 'other' else 'alt'}{i}" for i in range(n)]) for name, (dt, nc, _) in v["extra_cols"].items()}
             out.append(writers.extxyz(z, xyz, None if v.get("cell") is False else np.diag([5.0 + k, 6.0, 7.0]) * ang, energy=v.get("energy", -1.5 * (k + 1)), charge=1.0 if k == 1 else None,
                                       masses_au=np.array([1.5 * (i + 1) for i in range(n)]) * units.amu if v.get("masses") else None,
                                       forces=np.arange(3.0 * n).reshape(n, 3) * 0.01 if v.get("forces") else None, species_as_z=v.get("species_as_z", False), extra_cols=cols))
